@@ -34,13 +34,20 @@ fn index_levels(regs: &[Reg], level: u32, lv: &mut HashMap<u32, (u32, bool)>, mu
 pub struct PlanEnv {
     #[cfg(feature = "parallel")]
     pub pool: Arc<rayon::ThreadPool>,
+    /// a pool of another size: the plan must not depend on which pool is attached (C19)
+    #[cfg(feature = "parallel")]
+    pub pool_alt: Arc<rayon::ThreadPool>,
 }
 
-pub fn observe(regs: &[Reg], map: MapMode, env: &PlanEnv) -> String {
+pub fn observe(regs: &[Reg], map: MapMode, env: &PlanEnv) -> String { observe_with(regs, map, env, false) }
+
+pub fn observe_with(regs: &[Reg], map: MapMode, env: &PlanEnv, alt_pool: bool) -> String {
     let rec = Recorder::new(map);
     rec.set_caller();
+    #[cfg(not(feature = "parallel"))]
+    let _ = alt_pool;
     #[cfg(feature = "parallel")]
-    let out = build(regs, &rec, Some(&env.pool));
+    let out = build(regs, &rec, Some(if alt_pool { &env.pool_alt } else { &env.pool }));
     #[cfg(not(feature = "parallel"))]
     let out = { let _ = env; build(regs, &rec) };
     let mut s = String::new();
